@@ -1,6 +1,6 @@
 """C27 integer constant expressions are evaluated as C prescribes (DESIGN 4, C27).
 
-Monitor: a generated translation unit of ~40 self-contained items (initialised
+Monitor: a generated translation unit of a few hundred self-contained items (initialised
 globals of every integer type, arrays, structs, bit-field structs, enums, array
 bounds; vlib/cexprgen.py) is compiled with gcc -c and the initial bytes (and
 size) of every observed global are read from the object file's data symbols; the
@@ -55,8 +55,7 @@ MANIFEST_ENTRY = {
              "<< >> & | ^ ~ casts and sizeof over non-wrapping values; trusted base: gcc."),
     "technique": "runtime monitoring: gcc-built memory image / switch arm as oracle over cexprgen translation units",
 }
-SHARD_TIMEOUT = {"quick": 900, "thorough": 3 * 3600}
-ITEMS_PER_UNIT = 40
+SHARD_TIMEOUT = {"quick": 600, "thorough": 3 * 3600}
 
 
 def EXHAUSTIVE(tier):
@@ -64,25 +63,26 @@ def EXHAUSTIVE(tier):
 
 
 def plan(tier, seed, avoid):
+    # process spawns (gcc) dominate the cost: few, large translation units
     if tier == "quick":
-        specs = [{"part": "init", "shard": i, "units": 20} for i in range(32)]
-        specs += [{"part": "switch", "shard": i, "units": 4} for i in range(8)]
+        specs = [{"part": "init", "shard": i, "units": 2, "items": 350} for i in range(12)]
+        specs += [{"part": "switch", "shard": i, "units": 1, "funs": 24} for i in range(4)]
     else:
-        specs = [{"part": "init", "shard": i, "units": 420} for i in range(60)]
-        specs += [{"part": "switch", "shard": i, "units": 60} for i in range(12)]
-        specs += [{"part": "init", "shard": 1000 + i, "units": 60, "unrestricted": True} for i in range(8)]
+        specs = [{"part": "init", "shard": i, "units": 40, "items": 500} for i in range(40)]
+        specs += [{"part": "switch", "shard": i, "units": 12, "funs": 40} for i in range(12)]
+        specs += [{"part": "init", "shard": 1000 + i, "units": 6, "items": 400, "unrestricted": True} for i in range(8)]
     return specs
 
 
 def floors(tier):
     big = tier != "quick"
-    return {"evaluations": 150000 if big else 15000,
-            "distinct_nontrivial": 100000 if big else 10000,
-            "observed.kind.scalar": 1000, "observed.kind.array": 300, "observed.kind.struct": 300,
-            "observed.kind.bitfield": 300, "observed.kind.enum": 300, "observed.kind.arraysize": 300,
+    return {"evaluations": 300000 if big else 5000,
+            "distinct_nontrivial": 200000 if big else 4000,
+            "observed.kind.scalar": 1000, "observed.kind.array": 250, "observed.kind.struct": 250,
+            "observed.kind.bitfield": 250, "observed.kind.enum": 250, "observed.kind.arraysize": 250,
             "observed.dest": 11,
-            "observed.switch.probes": 2000 if big else 300,
-            "observed.switch.labels_hit": 300 if big else 60}
+            "observed.switch.probes": 5000 if big else 300,
+            "observed.switch.labels_hit": 1000 if big else 60}
 
 
 # ---- gcc side -----------------------------------------------------------------------
@@ -350,7 +350,7 @@ def run_init(spec, m):
     for u in range(spec["units"]):
         uid = "%s-%s" % (spec["shard"], u)
         r = rng(spec["seed"], PROPERTY, "init/" + uid)
-        items = [G.gen_item(r, i, avoid) for i in range(ITEMS_PER_UNIT)]
+        items = [G.gen_item(r, i, avoid) for i in range(spec.get("items", 40))]
         kept, imgs, sizes = gcc_images(items, tmp, "u" + uid.replace("-", "_"), m.disc)
         if not kept:
             continue
@@ -417,7 +417,7 @@ def run_switch(spec, m):
     for u in range(spec["units"]):
         uid = "%s_%s" % (spec["shard"], u)
         r = rng(spec["seed"], PROPERTY, "switch/" + uid)
-        funs = gen_switch_unit(r, avoid)
+        funs = gen_switch_unit(r, avoid, spec.get("funs", 6))
         # gcc -pedantic-errors filter: one compile, functions on rejected lines are dropped
         good = list(funs)
         for _round in range(3):
